@@ -1,7 +1,7 @@
 (* P_PseudoTree3.v -- from one DFS tree to the forest: the builder model never runs out
    of fuel and returns a valid pseudo-forest (PT_valid) for every well-formed graph. *)
 From Coq Require Import ZArith List Bool Lia Permutation.
-From PyDcop Require Import Base P_Base M_PseudoTree P_PseudoTree P_PseudoTree2.
+From PyDcop Require Import Base P_Base M_PseudoTree M_PseudoTree2 P_PseudoTree P_PseudoTree2.
 Import ListNotations.
 Open Scope Z_scope.
 
@@ -591,3 +591,228 @@ Section Component.
       unfold t1. rewrite t_ids_node_of. apply Hvis. eapply g_par_disc; eauto.
   Qed.
 End Component.
+
+(* ------------------------------------------------------------------ *)
+(*  the forest loop                                                     *)
+(* ------------------------------------------------------------------ *)
+Lemma fold_remove_spec visited : forall vars, NoDup vars ->
+  let vars' := fold_left (fun l v => remove_first v l) visited vars in
+  (forall y, In y vars' <-> In y vars /\ ~ In y visited) /\ NoDup vars' /\
+  (List.length vars' <= List.length vars)%nat /\
+  (forall r, In r visited -> In r vars -> (List.length vars' < List.length vars)%nat).
+Proof.
+  induction visited as [|v q IH]; intros vars Hnd; simpl.
+  - split; [tauto|]. split; [auto|]. split; [lia|]. intros r [].
+  - pose proof (remove_first_NoDup v vars Hnd) as Hnd1.
+    destruct (IH _ Hnd1) as [I1 [I2 [I3 I4]]].
+    pose proof (remove_first_length_le v vars) as Hle.
+    split; [|split; [|split]]; auto.
+    + intros y. rewrite I1, remove_first_In_iff by auto. intuition.
+    + lia.
+    + intros r [->|Hr] Hrv.
+      * pose proof (remove_first_length r vars Hrv). lia.
+      * destruct (Z.eq_dec r v) as [->|Hne].
+        -- pose proof (remove_first_length v vars Hrv). lia.
+        -- assert (In r (remove_first v vars)) by (apply remove_first_keeps; auto).
+           pose proof (I4 r Hr H). lia.
+Qed.
+
+Section Forest.
+  Variable rels : list (list Z).
+  Hypothesis rels_nodup : forall sc, In sc rels -> NoDup sc.
+
+  Lemma forest_valid : forall fuel vars,
+    NoDup vars -> closed rels vars -> (List.length vars <= fuel)%nat ->
+    exists roots t, forest fuel vars rels = Some (roots, t) /\ TV rels t /\
+                    (forall v, In v (t_ids t) <-> In v vars) /\
+                    (forall x, In x roots <-> In x (t_ids t) /\ t_parent t x = None).
+  Proof.
+    induction fuel as [|fuel IH]; intros vars Hnd Hcl Hlen.
+    - destruct vars; [|simpl in Hlen; lia]. exists [], []. simpl.
+      split; auto. split; [apply TV_nil|]. split; tauto.
+    - destruct vars as [|v0 vr].
+      { exists [], []. simpl. split; auto. split; [apply TV_nil|]. split; tauto. }
+      remember (v0 :: vr) as vars.
+      assert (Hne : vars <> []) by (subst; discriminate).
+      assert (Hf : forest (S fuel) vars rels =
+        match gen_dfs_tree vars rels with
+        | None => None
+        | Some (r, st) =>
+            match visit (S (List.length vars)) st r with
+            | None => None
+            | Some visited =>
+                let vars' := fold_left (fun l v => remove_first v l) visited vars in
+                match forest fuel vars' rels with
+                | None => None
+                | Some (roots, nodes) => Some (r :: roots, map (node_of rels st) visited ++ nodes)
+                end
+            end
+        end) by (rewrite Heqvars; reflexivity).
+      rewrite Hf. clear Hf.
+      destruct (gen_ok rels rels_nodup vars Hne) as [r [st [Eg [Hr [HG [Hdone HR]]]]]].
+      rewrite Eg.
+      destruct (gen_dfs_tree_ok _ _ _ _ Eg) as [_ Hinv].
+      assert (Hdv : forall a, disc st a -> In a vars).
+      { intros a [H|H].
+        - destruct (fP st a) as [p|] eqn:Ep; [|congruence].
+          destruct (Hinv a) as [_ [_ [_ [_ H5]]]]. apply H5 in Ep. now apply nbr_vars in Ep.
+        - apply (g_root _ _ _ HG) in H as [-> _]. exact Hr. }
+      destruct (visit_root _ _ _ HG vars Hr Hdv HR) as [visited [Ev [Nv Sv]]].
+      rewrite Ev. cbv zeta.
+      destruct (fold_remove_spec visited vars Hnd) as [F1 [F2 [F3 F4]]]. cbv zeta in F1, F2, F3, F4.
+      set (vars' := fold_left (fun l v => remove_first v l) visited vars) in *.
+      assert (Hrv : In r visited) by (apply Sv; now right).
+      assert (Hcl' : closed rels vars').
+      { intros sc a b Hsc Ha Hb Hav. apply F1 in Hav as [Hav Hnv]. apply F1.
+        split; [eapply Hcl; eauto|]. intros Hbv. apply Hnv.
+        destruct (Z.eq_dec a b) as [->|Hab]; auto.
+        apply Sv in Hbv. apply Sv.
+        eapply (comp_closed_nb rels vars r st HG Hdone b a); auto.
+        eapply nbr_intro; eauto. }
+      destruct (IH vars' F2 Hcl') as [roots [t2 [Ef [V2 [N2 R2]]]]].
+      { pose proof (F4 r Hrv Hr). lia. }
+      rewrite Ef. exists (r :: roots), (map (node_of rels st) visited ++ t2).
+      split; auto. split.
+      + apply TV_app.
+        * intros a Ha. rewrite t_ids_node_of in Ha. intros Ha2. apply N2 in Ha2.
+          apply F1 in Ha2. tauto.
+        * apply (comp_TV rels vars r st visited); auto.
+        * exact V2.
+      + split.
+        * intros v. rewrite t_ids_app, t_ids_node_of, in_app_iff, N2, F1. split.
+          -- intros [H|[H _]]; auto. apply Hdv. now apply Sv.
+          -- intros H. destruct (in_dec Z.eq_dec v visited); auto.
+        * intros x. rewrite t_ids_app, t_ids_node_of, in_app_iff. unfold t_parent.
+          destruct (in_dec Z.eq_dec x visited) as [Hx|Hx].
+          -- rewrite find_app_l by (now rewrite t_ids_node_of).
+             rewrite find_node_map_node_of. destruct (in_dec Z.eq_dec x visited); [|contradiction].
+             simpl. fold (fP st x). split.
+             ++ intros [<-|Hxr].
+                ** split; auto. apply (g_root _ _ _ HG); auto.
+                ** exfalso. apply R2 in Hxr as [Hxr _]. apply N2 in Hxr. apply F1 in Hxr. tauto.
+             ++ intros [_ Hp]. left. apply Sv in Hx. destruct Hx as [Hx|Hx]; [congruence|].
+                symmetry. apply (g_root _ _ _ HG); auto.
+          -- rewrite find_app_r by (now rewrite t_ids_node_of). fold (t_parent t2 x). split.
+             ++ intros [<-|Hxr]; [contradiction|]. apply R2 in Hxr. tauto.
+             ++ intros [[H|H] Hp]; [contradiction|]. right. apply R2. auto.
+  Qed.
+End Forest.
+
+(* ------------------------------------------------------------------ *)
+(*  the builder: never out of fuel, result valid                        *)
+(* ------------------------------------------------------------------ *)
+(* what every DCOP guarantees: distinct variables; a constraint does not list a variable
+   twice and ranges over variables of the problem *)
+Definition wf_graph (g : graph) : Prop :=
+  NoDup (g_vars g) /\ forall sc, In sc (g_rels g) -> NoDup sc /\ incl sc (g_vars g).
+
+Lemma TV_valid g roots t :
+  wf_graph g -> build g = Some (roots, t) -> TV (g_rels g) t ->
+  (forall v, In v (t_ids t) <-> In v (g_vars g)) -> PT_valid g t.
+Proof.
+  intros [Hnd Hsc] Hb V Hn.
+  pose proof (build_constraints_l g roots t Hb) as Hc.
+  destruct (tv_ranked _ _ V) as [d [N [HB HD]]].
+  constructor.
+  - apply (tv_nodup _ _ V).
+  - exact Hn.
+  - apply (tv_par_ch _ _ V).
+  - apply (tv_pp_pc _ _ V).
+  - apply (tv_nd_ch _ _ V).
+  - apply (tv_nd_pp _ _ V).
+  - apply (tv_nd_pc _ _ V).
+  - intros a H. pose proof (anc_depth t d HD _ _ H). lia.
+  - apply (tv_pp_anc _ _ V).
+  - intros sc a b H1 H2 H3 H4. eapply (tv_edges _ _ V); eauto.
+    apply Hn. destruct (Hsc sc H1) as [_ Hi]. apply Hi. exact H2.
+  - intros a. unfold t_rels. destruct (find_node t a) as [n|] eqn:E; [|constructor].
+    apply find_node_Some in E as [E _]. apply (Hc n E).
+  - intros a c Ha. apply find_node_In in Ha as [n E]. unfold t_rels. rewrite E.
+    apply find_node_Some in E as [E <-]. apply (Hc n E).
+  - exists d, N. auto.
+Qed.
+
+Theorem build_valid_l g : wf_graph g ->
+  exists roots t, build g = Some (roots, t) /\ PT_valid g t.
+Proof.
+  intros Hwf. pose proof Hwf as [Hnd Hsc]. unfold build.
+  destruct (forest_valid (g_rels g) (fun sc H => proj1 (Hsc sc H))
+              (S (List.length (g_vars g))) (g_vars g)) as [roots [t [E [V [N _]]]]]; auto.
+  - intros sc a b H1 H2 H3 _. destruct (Hsc sc H1) as [_ Hi]. auto.
+  - exists roots, t. split; auto. eapply TV_valid; eauto.
+Qed.
+
+Lemma wf_graphb_sound_l g : wf_graphb g = true -> wf_graph g.
+Proof.
+  unfold wf_graphb, wf_graph. intros H. apply andb_true_iff in H as [H1 H2].
+  split; [now apply nodupb_NoDup|]. intros sc Hsc.
+  eapply forallb_In in H2; eauto. apply andb_true_iff in H2 as [H2 H3].
+  split; [now apply nodupb_NoDup|]. intros v Hv.
+  eapply forallb_In in H3; eauto. now apply zmem_In.
+Qed.
+
+(* ---- corollaries in the shape of the DESIGN section-5 obligations ---- *)
+Lemma build_no_fuel_l g : wf_graph g -> build g <> None.
+Proof. intros H. destruct (build_valid_l g H) as [roots [t [E _]]]. congruence. Qed.
+
+Lemma build_PT_valid_l g roots t : wf_graph g -> build g = Some (roots, t) -> PT_valid g t.
+Proof.
+  intros H E. destruct (build_valid_l g H) as [roots' [t' [E' V]]].
+  rewrite E in E'. inversion E'; subst. exact V.
+Qed.
+
+Lemma pt_nodes_l g roots t : wf_graph g -> build g = Some (roots, t) ->
+  NoDup (t_ids t) /\ forall v, In v (t_ids t) <-> In v (g_vars g).
+Proof.
+  intros H E. pose proof (build_PT_valid_l g roots t H E) as V.
+  split; [apply (ptv_nodup g t V)|apply (ptv_nodes g t V)].
+Qed.
+
+Lemma pt_links_converse_l g roots t : wf_graph g -> build g = Some (roots, t) ->
+  (forall a b, t_parent t a = Some b <-> In a (t_children t b)) /\
+  (forall a b, In b (t_pps t a) <-> In a (t_pcs t b)) /\
+  (forall a, NoDup (t_children t a) /\ NoDup (t_pps t a) /\ NoDup (t_pcs t a)).
+Proof.
+  intros H E. pose proof (build_PT_valid_l g roots t H E) as V.
+  split; [apply (ptv_parent_children g t V)|]. split; [apply (ptv_pp_pc g t V)|].
+  intros a. split; [apply (ptv_children_nodup g t V)|].
+  split; [apply (ptv_pps_nodup g t V)|apply (ptv_pcs_nodup g t V)].
+Qed.
+
+Lemma pt_acyclic_l g roots t : wf_graph g -> build g = Some (roots, t) ->
+  (forall a, ~ anc t a a) /\ (forall a, rooted t a).
+Proof.
+  intros H E. pose proof (build_PT_valid_l g roots t H E) as V.
+  split; [apply (ptv_acyclic g t V)|apply (pt_valid_rooted_l g t V)].
+Qed.
+
+Lemma pt_edges_ancestral_l g roots t : wf_graph g -> build g = Some (roots, t) ->
+  forall sc a b, In sc (g_rels g) -> In a sc -> In b sc -> a <> b ->
+    (anc t a b \/ anc t b a) /\ linked t a b.
+Proof.
+  intros H E. pose proof (build_PT_valid_l g roots t H E) as V.
+  apply (pt_valid_ancestral_l g t V).
+Qed.
+
+(* the hypothesis is needed: a constraint listing a variable twice makes the variable its
+   own child; the preorder listing of the model then never ends (fuel exhausted) *)
+Lemma build_needs_wf_l :
+  exists g, NoDup (g_vars g) /\ (forall sc, In sc (g_rels g) -> incl sc (g_vars g)) /\
+    build g = None.
+Proof.
+  exists (mkGraph [0] [[0; 0]]).
+  split; [repeat constructor; simpl; tauto|]. split.
+  - intros sc [<-|[]] v [<-|[<-|[]]]; now left.
+  - vm_compute. reflexivity.
+Qed.
+
+(* the roots the builder returns are exactly the nodes without parent *)
+Lemma pt_roots_l g roots t : wf_graph g -> build g = Some (roots, t) ->
+  forall x, In x roots <-> In x (t_ids t) /\ t_parent t x = None.
+Proof.
+  intros Hwf Hb. pose proof Hwf as [Hnd Hsc]. unfold build in Hb.
+  destruct (forest_valid (g_rels g) (fun sc H => proj1 (Hsc sc H))
+              (S (List.length (g_vars g))) (g_vars g)) as [roots' [t' [E [_ [_ R]]]]]; auto.
+  - intros sc a b H1 H2 H3 _. destruct (Hsc sc H1) as [_ Hi]. auto.
+  - rewrite Hb in E. inversion E; subst. exact R.
+Qed.
